@@ -109,7 +109,7 @@ package federation
 //@   calls fn#1: requires (opts.BypassFederation || opts.ForwardedFor != "") && $1 == conn.cluster.ClusterID && $2 == conn.local
 //@   calls fn#2: requires matchAllFilters == nil && $1 == conn.cluster.ClusterID && $2 == conn.local
 //@   calls fn#3: requires len(todoByRemote) == 1 && has(todoByRemote, conn.cluster.ClusterID) && $1 == conn.cluster.ClusterID && $2 == conn.local
-//@   calls Conn.splitListRequest$1#1: requires !cannotSplit && opts.Count == "none" && opts.Limit < 0 && opts.Offset == 0 && len(opts.Order) == 0 && nUUIDs <= conn.cluster.API.MaxItemsPerResponse
+//@   calls Conn.splitListRequest$1#1: requires !cannotSplit && opts.Count == "none" && opts.Limit < 0 && opts.Offset == 0 && len(opts.Order) == 0 && nUUIDs <= max
 
 // Per-cluster worker: the backend is the local one for the local cluster id,
 // the configured remote otherwise (unknown cluster => error); every round
@@ -120,6 +120,8 @@ package federation
 //@   ghost len0 int = 0
 //@   ghost ferr error = nil
 //@   calls fn#1: requires $1 == clusterID && (clusterID == conn.cluster.ClusterID ==> $2 == conn.local) && (clusterID != conn.cluster.ClusterID ==> $2 == conn.remotes[clusterID] && $2 != nil)
+//@   # the merge callback does not touch this worker's to-do set
+//@   calls fn#1: pure
 //@   calls fn#1: set len0 = len(todo)
 //@   calls fn#1: set ferr = $r1
 //@   loop 3: invariant todo == old(todo) && len(todo) <= len0 && (progress ==> len(todo) < len0) && ferr == nil
